@@ -1,6 +1,7 @@
 SPECIFICATION TraceSpec
 CONSTANT Procs = {"p1", "p2", "p3"}
 CONSTANT FixF6 = TRUE
+CONSTANT FixF21 = TRUE
 CONSTRAINT Progress
 POSTCONDITION Accepted
 CHECK_DEADLOCK FALSE
